@@ -114,7 +114,7 @@ def run_vgroup(name, repo, scratch, rlimit):
         res['undecided'].append('vacuity guard: canaries verified (contradictory contract?): %s' % missing)
     res['units'] = per_unit
     if res['undecided']:
-        res['status'] = 'undecided'
+        res['status'] = 'undecided'   # refuted units (definite answers) are still reported by finish()
     elif per_unit:
         res['status'] = 'refuted'
     res['rendered_errors'] = [e for es in per_unit.values() for e in es]
@@ -192,7 +192,7 @@ def finish(pid, cfg, tier, seed, vres, kres, known, t0, scratch):
             n = cc['ensures'] + cc['invariant'] + cc.get('decreases', 0) + (0 if m.get('lemma') else 1)  # +1: panic/overflow/precondition-of-callees freedom
             obligations += n
             fails = r['units'].get(unit, [])
-            if r['status'] == 'undecided':
+            if r['status'] == 'undecided' and not fails:
                 pass
             elif fails:
                 for e in fails:
@@ -209,7 +209,7 @@ def finish(pid, cfg, tier, seed, vres, kres, known, t0, scratch):
             else:
                 discharged += n
             functions.append(dict(unit=unit, function=m['function'], file=m['file'], engine='verus', cls='lemma (unbounded)' if m.get('lemma') else 'unbounded',
-                                  clauses=cc, status='undecided' if r['status'] == 'undecided' else ('refuted' if fails else 'discharged')))
+                                  clauses=cc, status='refuted' if fails else ('undecided' if r['status'] == 'undecided' else 'discharged')))
             if len(samples) < 6 and m.get('spec'):
                 try:
                     txt = open(os.path.join(VERIF, 'verus', 'contracts', m['spec'])).read()
